@@ -58,6 +58,9 @@ def toggle_one(rng, T, v):
 class RefBlock:
     def __init__(self):
         self.t = {T: [] for T in TABLES}
+        self.q, self.m, self.a = [], [], {}      # items: client ports of Q/Rs and malformed messages; address-event type -> count
+        self.cq = self.cm = 0                    # read cursors
+        self.ca = False                          # address events read to the end
 
     def add(self, T, v):
         if v in self.t[T]:
@@ -77,10 +80,11 @@ class RefBlock:
     def copy(self):
         b = RefBlock()
         b.t = {k: list(v) for k, v in self.t.items()}
+        b.q, b.m, b.a = list(self.q), list(self.m), dict(self.a)      # a copy starts reading at the beginning
         return b
 
     def sig(self):
-        return repr(sorted(self.t.items()))
+        return repr((sorted(self.t.items()), self.q, self.m, sorted(self.a.items())))
 
 
 def run_ref(toks):
@@ -96,7 +100,28 @@ def run_ref(toks):
             elif op == "del":
                 B.pop(int(a[1]), None); out.append("ok")
             elif op == "clr":
-                B[int(a[1])].t = {T: [] for T in TABLES}; out.append("ok")
+                b = B[int(a[1])]; b.t = {T: [] for T in TABLES}; b.q, b.m, b.a = [], [], {}; out.append("ok")
+            elif op == "iq":
+                B[int(a[1])].q.append(a[2]); out.append("ok")
+            elif op == "im":
+                B[int(a[1])].m.append(a[2]); out.append("ok")
+            elif op == "ia":
+                b = B[int(a[1])]; b.add("ip", "x7f000001"); b.a[int(a[2])] = b.a.get(int(a[2]), 0) + 1; out.append("ok")
+            elif op == "rq":
+                b = B[int(a[1])]
+                if b.cq < len(b.q):
+                    out.append(b.q[b.cq]); b.cq += 1
+                else:
+                    out.append("end")
+            elif op == "rm":
+                b = B[int(a[1])]
+                if b.cm < len(b.m):
+                    out.append(b.m[b.cm]); b.cm += 1
+                else:
+                    out.append("end")
+            elif op == "RA":
+                b = B[int(a[1])]
+                out.append("-" if b.ca or not b.a else ",".join(sorted("%d*%d" % kv for kv in b.a.items()))); b.ca = True
             elif op == "cp":
                 B[int(a[1])] = B[int(a[2])].copy(); out.append("ok")
             elif op == "w":
